@@ -189,6 +189,17 @@ inductive Tree where
   | frag (ty : Str) (kids : List Tree)
 deriving Repr, Inhabited
 
+mutual
+/-- number of nodes -/
+def Tree.size : Tree → Nat
+  | .field _ _ none => 1
+  | .field _ _ (some kids) => 1 + Tree.sizeList kids
+  | .frag _ kids => 1 + Tree.sizeList kids
+def Tree.sizeList : List Tree → Nat
+  | [] => 0
+  | t :: rest => t.size + Tree.sizeList rest
+end
+
 /-- what `{ __typename, }` denotes -/
 def typenameNode : Tree := .field cs!"__typename" [] none
 
